@@ -502,6 +502,10 @@ static void mode_solve(uint64_t seed, bool th) {
     for (int k = 0; k < nsel; ++k) {
         cfg c = th ? all[k % all.size()] : cfg{COARS[k % 2], RELAX[(k + seed) % 9], SOLVERS[(k * 3 + seed / 9) % 8], false, 2};
         c.repart = g.coin(0.5); c.ratio = g.range(2, 4);
+        // replay / focus: VERIF_COARS, VERIF_RELAX, VERIF_SOLVER pin a component
+        if (const char *e = getenv("VERIF_COARS")) c.coarsening = e;
+        if (const char *e = getenv("VERIF_RELAX")) c.relax = e;
+        if (const char *e = getenv("VERIF_SOLVER")) c.solver = e;
         bool grid = g.coin(0.6);
         int nx = g.range(8, 18), ny = g.range(6, 16);
         auto A = grid ? vr::poisson2d(nx, ny, g.range(1, 2), 1) : vr::random_mmatrix(g, g.range(60, 260), 0.03, 3, 1, true);
